@@ -64,8 +64,8 @@ def run(chk, ctx):
                     tri(chk, "C02.END", cons, prove_eq(st, RPREV - M), run_, rec,
                         "steps reversed when EndReverse is emitted: r_before - max_n")
                 else:
-                    chk.note("C02.END for the converter depends on the operation sequence (last Backward is [1,0]); "
-                             "decided on the grammar in the thorough tier only")
+                    chk.note("C02.END for the converter depends on the operation sequence: decided on the grammar (C02.END-SEQ: "
+                             "the last Backward of every sequence is [1, 0])")
                 end, follow = fin.get(rec.yid, (False, True))
                 if multi:
                     tri(chk, "C02.RESET", cons, prove_eq(st, R), run_, rec, "r at EndReverse with further passes permitted")
@@ -75,8 +75,18 @@ def run(chk, ctx):
                                ("nothing is emitted after the only EndReverse" if ok else
                                 "another action can follow the EndReverse of the last permitted calculation")
                                + (f" under {cfg}" if cfg else ""), rel=run_.rel, node=rec.node)
-    # ---- GRAM: unit-length Backward
+    # ---- GRAM: every entry point's sequence ends by reversing step [1, 0]: with the converter's
+    # guard n_0 == max_n - r_before this is r == max_n when EndReverse is emitted
     g = Grammar(ctx.repo)
+    from ..gram import ends_at_origin
+    res, why = ends_at_origin(g)
+    chk.describe("C02.END-SEQ", "every live production of the sequence builders ends with the quartet reversing step [1, 0]")
+    for f in sorted(res):
+        b = g.builders[f]
+        chk.files.add(b.rel)
+        chk.decide("C02.END-SEQ", f"{b.rel[:-3].replace('/', '.')}.{f}#last-backward", res[f],
+                   "all productions end (up to trailing Discards) with Backward [1, 0] or an unshifted sequence that does"
+                   if res[f] else why.get(f, ""), rel=b.rel, node=b.fn)
     for b, op in g.ops():
         if op.type != "Backward":
             continue
